@@ -124,7 +124,8 @@ Definition check_iter (X : list (list float)) (yc : list float) (lam tol : float
          | None => false
          | Some (err, dxu) => vclose tolP dxu (r_dxu r) && feq_tol tolP err (r_pcg_err r)
          end &&
-         ls_all_rejected ls_fuel X yc lam (r_t r) (r_w r) (r_u r) dx du phi gdx slack 1))
+         ls_all_rejected ls_fuel X yc lam (r_t r) (r_w r) (r_u r) dx du phi gdx slack 1 &&
+         negb (is_finite F gdx && is_finite F phi)))
      else
      feq t (r_t r) &&
      feq_tol tolK pcgtol (r_pcgtol r) &&
@@ -132,9 +133,14 @@ Definition check_iter (X : list (list float)) (yc : list float) (lam tol : float
      | None => false
      | Some (err, dxu) => vclose tolP dxu (r_dxu r) && feq_tol tolP err (r_pcg_err r)
      end &&
-     ls_check ls_fuel X yc lam (r_t r) (r_w r) (r_u r) dx du phi gdx slack 1 (r_s r) &&
-     let neww := axpy F (r_s r) dx (r_w r) in
-     let newu := axpy F (r_s r) du (r_u r) in
+     (* recorded s = 0: the null step of the repair e30c76a (all 100 trial steps rejected, direction finite) *)
+     let null_step := PrimFloat.eqb (r_s r) 0 in
+     (if null_step then
+        ls_all_rejected ls_fuel X yc lam (r_t r) (r_w r) (r_u r) dx du phi gdx slack 1 &&
+        is_finite F gdx && is_finite F phi
+      else ls_check ls_fuel X yc lam (r_t r) (r_w r) (r_u r) dx du phi gdx slack 1 (r_s r)) &&
+     let neww := if null_step then r_w r else axpy F (r_s r) dx (r_w r) in
+     let newu := if null_step then r_u r else axpy F (r_s r) du (r_u r) in
      match next with
      | Some r' =>
        vsame neww (r_w r') && vsame newu (r_u r') && feq (r_tb r') (r_t r) && feq (r_sb r') (r_s r) &&
